@@ -48,11 +48,13 @@ class SerdeInterp(CkInterp):
 
     def operand(self, fr, s):
         s = s.strip()
-        m = re.match(r'^const .*visit_map::<A>::promoted\[(\d+)\]$', s)
+        m = re.match(r'^const (?:.*::)?(\w+)(?:::<[^\[]*>)?::promoted\[(\d+)\]$', s)
         if m:
-            cands = [f for n, f in self.consts_fns.items() if n.endswith('visit_map::promoted[%s]' % m.group(1))]
+            cands = [f for n, f in self.consts_fns.items() if n.endswith('%s::promoted[%s]' % (m.group(1), m.group(2)))]
+            m = re.match(r'^()(\d+)$', m.group(2))
             assert len(cands) == 1, (s, list(self.consts_fns))
             sub = SerdeInterp(self.fns, 1)
+            sub.consts_fns = self.consts_fns
             sub.shared = self.shared
             sub.world = {'locals': {}}
             res = sub.run(cands[0], [], z3.BoolVal(True))
@@ -70,6 +72,12 @@ class SerdeInterp(CkInterp):
             return OptionVal(z3.BoolVal(True), self.operand(fr, m.group(1)))
         if re.match(r'^std::option::Option::<.*>::None$', s):
             return OptionVal(z3.BoolVal(False), bv(0))
+        m = re.match(r'^PtrMetadata\((.*)\)$', s)
+        if m:
+            v = self.operand(fr, m.group(1))
+            v = self.read_ref(v) if isinstance(v, Ref) else v
+            if isinstance(v, Struct) and v.name == 'VecU8':
+                return v.fields[0]     # length of the slice the reference points to
         m = re.match(r'^HyperLogLog::<T, B> \{(.*)\}$', s)
         if m:
             return Struct('HyperLogLog', [self.operand(fr, f.split(':', 1)[1]) for f in split_top(m.group(1))])
@@ -122,7 +130,12 @@ class SerdeInterp(CkInterp):
             if r.name == 'RangeInclusive':
                 return z3.And(z3.ULE(lo, v), z3.ULE(v, hi))
             return z3.And(z3.ULE(lo, v), z3.ULT(v, hi))
-        if fname == 'Vec::<u8>::len':
+        if re.match(r'^<Vec<u8> as (?:std::ops::)?Deref>::deref$', fname) or fname in ('Vec::<u8>::as_slice', '<Vec<u8> as AsRef<[u8]>>::as_ref'):
+            return a[0]
+        if fname in ('Vec::<u8>::is_empty', 'core::slice::<impl [u8]>::is_empty'):
+            v = self.read_ref(a[0]) if isinstance(a[0], Ref) else a[0]
+            return v.fields[0] == 0
+        if fname == 'Vec::<u8>::len' or fname == 'core::slice::<impl [u8]>::len':
             v = self.read_ref(a[0]) if isinstance(a[0], Ref) else a[0]
             return v.fields[0]
         return CkInterp.call(self, fr, fname, args)
